@@ -32,6 +32,7 @@ def drive_and_validate(run, cases, shards):
 
 def check(tier):
     run = Run("C14", tier)
+    run.skip_key = ['root', 'ext', 'marker']
     mr, me = BOUNDS[tier]
     # 1+2. model check the numbering rule against the clause-by-clause invariants and emit every
     #      legal enumeration of the bounded space as a case
